@@ -573,6 +573,25 @@ _reg(
     )
 )
 
+_reg(
+    Rearr(
+        "repeat",
+        lambda x, p: np.repeat(x, p["repeats"], axis=p.get("axis")),
+        _simple("repeat", lambda p: (p["repeats"], p.get("axis")), method=False),
+        spellings=("f", "n"),
+        view_capable=False,
+    )
+)
+for _k in (1, 2, 3):
+    _reg(
+        Rearr(
+            f"atleast_{_k}d",
+            (lambda k: lambda x, p: getattr(np, f"atleast_{k}d")(x))(_k),
+            _simple(f"atleast_{_k}d", method=False),
+            spellings=("f", "n"),
+        )
+    )
+
 # ufuncs that accept out= / where= (for in-place events)
 UFUNC_OUT = {
     "add": "add",
